@@ -16,10 +16,15 @@
 //   P <id> <bid> <len> <V|T>            prefix of base bid
 //   A <bid> <stride> <offset>           ALL single-edit mutants at positions offset, offset+stride, ... and
 //                                       every prefix (stride 1) or prefixes at those lengths: totality only
+// Reader-construction matrix (c05_readers.hh): S, X, E, every 8th T document and the prefixes of every 2nd base
+// document are additionally presented to parse(StringReader&) through sub/subx/truncate/copied/nested/owning/
+// positioned/guard-paged readers inside a larger buffer whose hidden bytes are JSON continuations; outcome and
+// consumed extent must equal the plain construction's.
 // observation lines:  <id> <mode 0|1> <st0,st1,st2> <reader where> <what of string entry> <tagged value or ->
 #include <map>
 
 #include "c05_common.hh"
+#include "c05_readers.hh"
 #include "common.hh"
 
 using namespace std;
@@ -54,7 +59,26 @@ static string clean(const string& s) {
   return r;
 }
 
-static void run_case(const string& id, const char* kind, const string& doc, bool log) {
+// Reader-construction matrix (c05_readers.hh): rc 0 = none, 1 = one construction per family (rotating), 2 = all.
+static c05::MatrixStats rc_stats;
+static vf::Rng rc_rng;
+static uint64_t rc_round = 0;
+static bool rc_enabled = true;  // --arg rc=0 switches the matrix off (cost measurements only; the spec never does)
+
+static void run_matrix(const string& id, const char* kind, const string& L, const c05::Six& s, int rc, const string* natural) {
+  c05::Out ref[2] = {s.o[0][0], s.o[1][0]};
+  vector<int> which = rc >= 2 ? c05::cons_all() : c05::cons_subset(rc_round++);
+  uint64_t before = rc_stats.constructions;
+  c05::reader_matrix(
+      fmt("%s kind=%s", id.c_str(), kind), L, ref, natural, which, rc_rng, rc_stats,
+      [&](const string& key, const string& what, const string& kase) { C->violation(key, what, kase); },
+      [&](const char* family, int strict, const char* outcome) { C->cls(fmt("rc:%s:%s:%s", family, strict ? "strict" : "default", outcome)); },
+      [&](const string& text) { C->crumb_s(text); });
+  C->evaluations += rc_stats.constructions - before;
+  C->cls(fmt("rc-doc:%s:%s", kind, natural && !natural->empty() ? "hidden-rest-of-document" : "hidden-continuation"));
+}
+
+static void run_case(const string& id, const char* kind, const string& doc, bool log, int rc = 0, const string* natural = nullptr) {
   if (!log && c05::costly_exponent(doc.data(), doc.size())) {
     C->count("skipped_exponent_over_4_digits");
     return;
@@ -75,6 +99,7 @@ static void run_case(const string& id, const char* kind, const string& doc, bool
           s.o[m][2].ok ? s.o[m][2].tag.c_str() : (s.o[m][0].ok ? ("R" + s.o[m][0].tag).c_str() : "-"));
     }
   }
+  if (rc && rc_enabled) run_matrix(id, kind, doc, s, rc, natural);
 }
 
 static string mutate(const string& base, size_t pos, char op, unsigned char byte) {
@@ -103,6 +128,14 @@ int main(int argc, char** argv) {
   }
   map<string, string> bases;
   vector<unsigned char> alpha = alphabet();
+  rc_rng = c.rng(5);
+  rc_enabled = c.arg("rc", "1") != "0";
+  // reader-construction matrix sampling (counts, not seconds): every S and X document gets all constructions;
+  // extension documents one construction per family (every 4th: all); every 8th soup document and every
+  // truncation point of every 2nd base document one construction per family, the hidden bytes behind the
+  // logical end being the rest of the document
+  uint64_t n_ext = 0, n_soup = 0, n_base = 0;
+  const uint64_t base_phase = c.seed % 2;
   char* line = nullptr;
   size_t cap = 0;
   ssize_t n;
@@ -146,19 +179,23 @@ int main(int argc, char** argv) {
         break;
       case 'S':
         need(3);
-        run_case(p[1], "S", unhex(p[2]), true);
+        run_case(p[1], "S", unhex(p[2]), true, 2);
         break;
       case 'E':
         need(4);
-        run_case(p[1], ("E-" + p[2]).c_str(), unhex(p[3]), true);
+        run_case(p[1], ("E-" + p[2]).c_str(), unhex(p[3]), true, (n_ext++ % 4 == 0) ? 2 : 1);
         break;
       case 'X':
         need(4);
-        run_case(p[1], "X", unhex(p[2]) + unhex(p[3]), true);
+        run_case(p[1], "X", unhex(p[2]) + unhex(p[3]), true, 2);
+        {
+          string d = unhex(p[2]), suffix = unhex(p[3]);  // D alone, the suffix hidden behind the logical end
+          run_case(p[1] + "~D", "Xd", d, false, 2, &suffix);
+        }
         break;
       case 'T':
         need(4);
-        run_case(p[1], "T", unhex(p[2]), p[3] == "V");
+        run_case(p[1], "T", unhex(p[2]), p[3] == "V", (n_soup++ % 8 == 0) ? 1 : 0);
         break;
       case 'M': {
         need(7);
@@ -177,14 +214,21 @@ int main(int argc, char** argv) {
         const string& b = base(p[1]);
         size_t stride = strtoull(p[2].c_str(), nullptr, 10), off = strtoull(p[3].c_str(), nullptr, 10);
         if (!stride) stride = 1;
+        bool rc_base = (n_base++ % 2) == base_phase;
         for (size_t pos = off; pos < b.size(); pos += stride) {
           string tag = fmt("%s@%zu", p[1].c_str(), pos);
           run_case(tag + "d", "Md", mutate(b, pos, 'd', 0), false);
           run_case(tag + "u", "Mu", mutate(b, pos, 'u', 0), false);
           for (unsigned char a : alpha)
             if ((unsigned char)b[pos] != a) run_case(tag + fmt("r%u", a), "Mr", mutate(b, pos, 'r', a), false);
-          run_case(tag + "p", "P", b.substr(0, pos), false);
+          if (rc_base) {
+            string rest = b.substr(pos);
+            run_case(tag + "p", "P", b.substr(0, pos), false, 1, &rest);
+          } else {
+            run_case(tag + "p", "P", b.substr(0, pos), false);
+          }
         }
+        if (rc_base) c.count("rc_bases_truncated_at_every_sampled_position");
         c.count("bases_fully_mutated");
         break;
       }
@@ -196,6 +240,12 @@ int main(int argc, char** argv) {
   free(line);
   fclose(f);
   fclose(obs);
+  c.count("rc_constructions", rc_stats.constructions);
+  c.count("rc_parses", rc_stats.parses);
+  c.count("rc_skipped_too_long_for_guard_region", rc_stats.skipped_too_long_for_guard);
+  c.count("rc_reader_size_unexpected", rc_stats.size_unexpected);
+  c.count("rc_construction_threw", rc_stats.construction_threw);
+  c.sample("reader matrix: the logical bytes L inside B = PF + L + HID (hidden parts valid memory holding JSON continuations) through sub/subx/truncate/copies/nested windows/owning readers/positioned readers/guard pages must give the outcome and consumed extent of a reader over exactly L");
   c.sample("every case: JSON::parse x {default,strict} x {StringReader&, (const char*,size_t), const std::string&} on an exact-size heap copy");
   return c.finish();
 }
